@@ -632,7 +632,7 @@ def prev_consts(ctx, small=False):
     (oversize, and in the band of 10), 0; every order, length <= PrevLen."""
     return _consts({"Fam": "prev", "N": -1, "Z": 0, "Shapes": TLA("{}"), "ZShapes": TLA("{}"), "Limits": {1}, "Limits3": {1},
                     "Itemsizes": {1} if (small or ctx.quick) else {1, 8},
-                    "PrevPieces": {0, 2, 5, 12}, "PrevLen": 3 if small else ctx.pick(4, 5), "PrevAxisMenu": TLA(PREV_MENU),
+                    "PrevPieces": {0, 2, 5, 12}, "PrevLen": 3 if small else 4, "PrevAxisMenu": TLA(PREV_MENU),
                     "PrevLimits": TLA("<<{4, 16}, {16, 100}, {64}>>" if small else
                                       ctx.pick("<<{4, 16, 64}, {16, 100}, {64}>>",
                                                "<<{2, 4, 8, 10, 16, 64}, {4, 16, 25, 64, 100}, {8, 64, 125, 512}>>"))})
@@ -704,7 +704,7 @@ def run(ctx):
                                                                     "{<<2, 2>>, <<1, 3>>, <<0, 3>>, <<3, 2>>, <<2, 0>>}")),
                                             "Limits": {1}, "Limits3": {1}, "Itemsizes": {1}},
                                       {"1d": 10 ** 9, "nd": ctx.pick(600, 9000), "zero": ctx.pick(400, 4000)}, ctx.pick(2, 3))
-    precs, t3, s3 = prev_phase(ctx, prev_consts(ctx), ctx.pick(10 ** 9, 60000), ctx.pick(600, 8000))
+    precs, t3, s3 = prev_phase(ctx, prev_consts(ctx), ctx.pick(10 ** 9, 60000), ctx.pick(600, 5000))
     qrecs, m3 = random_phase(ctx, ctx.pick(600, 10000))
     validate(ctx, nrecs + precs + rrecs + qrecs, "all-recorded-calls")
     md = sum(1 for r in rrecs if r["fam"] == "plan" and len(r["steps"]) > 1)
